@@ -10,6 +10,7 @@ journal are snapshotted at every line and each snapshot loaded: old | new (a tra
 """
 from __future__ import annotations
 
+import copy
 import shutil
 import sys
 from pathlib import Path
@@ -411,14 +412,53 @@ def json_exception_cell(cell):
             res["outcomes"].add(("json-exception", out if out in ("old", "new", "error") else "hybrid"))
             if out not in ("old", "new", "error"):
                 res["nontrivial"] += 1
-                key = "json-backend:non-atomic:exception" if conforms(out) else f"json-backend:unexpected:exception:{out}"
+                key = f"json-backend:non-atomic:exception:{boundary(out)}" if conforms(out) else f"json-backend:unexpected:exception:{out}"
                 if sum(1 for x in res["violations"] if x["key"] == key) < 1:
                     res["violations"].append({"key": key, "what": f"[prev={prev_kind}] an exception at line event {k} ({where[0]}) of the save leaves a folder that restores with {out}",
                                               "case": {"mode": "json-exception", "cfg": cfg, "prev": prev_kind, "new_batches": nb, "k": k}})
             shutil.rmtree(w, ignore_errors=True)
+        # the environment answers "this object cannot be pickled" (it acquired a lambda / an open handle in mid-run): the save fails
+        # INSIDE the serialisation of the scheduler or of the loss function, after calibration_params.json was rewritten
+        for which in ("scheduler", "loss"):
+            w = root / f"unp_{which}"
+            shutil.copytree(P.parent, w)
+            victim = copy.deepcopy(live)
+            if which == "scheduler":
+                victim.scheduler.samplers[0]._vf_handle = lambda: None  # noqa: SLF001
+            else:
+                victim.loss_function._vf_handle = lambda: None  # noqa: SLF001
+            raised = None
+            try:
+                with quiet():
+                    victim.create_checkpoint(str(w / "F"))
+            except Exception as e:  # noqa: BLE001
+                raised = e
+            res["evaluations"] += 1
+            res["traces"] += 1
+            if raised is None:
+                continue   # the back-end found a way to store it: nothing failed
+            try:
+                out = classify(components(C.restore(w / "F", cfg)), old, new)
+            except Exception:  # noqa: BLE001
+                out = "error"
+            res["outcomes"].add(("json-unpicklable", out if out in ("old", "new", "error") else "hybrid"))
+            if out not in ("old", "new", "error"):
+                res["nontrivial"] += 1
+                key = f"json-backend:non-atomic:unpicklable-{which}"
+                if sum(1 for x in res["violations"] if x["key"] == key) < 1:
+                    res["violations"].append({"key": key, "what": f"[prev={prev_kind}] a save that failed with {type(raised).__name__} while serialising the {which} leaves a folder that restores silently with {out}",
+                                              "case": {"mode": "json-exception", "cfg": cfg, "prev": prev_kind, "new_batches": nb, "k": -1}})
         res["states"] = total
     res["outcomes"] = sorted(res["outcomes"])
     return res
+
+
+def boundary(sig):
+    """Last component (in write order) that a conforming hybrid holds in its NEW version: where the save was cut."""
+    parts = dict(p.split("=") for p in sig.split(";"))
+    new = parts.get("new", "").split("+") if parts.get("new") else []
+    last = max((ORDER.index(c) for c in new), default=-1)
+    return "after=" + (ORDER[last] if last >= 0 else "nothing")
 
 
 def run_cell(cell):
